@@ -1078,6 +1078,8 @@ def rule_com_extent(ctx, rule='R20.14'):
 
 
 def run(ctx):
+    from . import edges
+    edges.rule_single_particle(ctx, 'R20.16')        # a single particle is moved to the origin too
     from . import pyrules
     pyrules.rule_undefined_names(ctx, 'R18.11')     # the vector and rotation methods can be called (no NameError)
     pyrules.rule_c_result_only(ctx, 'R20.15')       # Rotation constructors return the C construction, no Python shortcut for 'trivial' directions
